@@ -8,7 +8,7 @@ import QV.Proofs.Call
 > (variables, tuple elements, repeated or swapped arguments, several calls) and whatever names
 > caller and callee use.  The callee object is unchanged.
 
-Model: `QV/Model/Call.lean` (`Env.bind_function`, the *Known function* branch of
+Model: `QV/Model/Call.lean` (`Env.bind_function` with its guard, `know_function` / `getdef` = `resolve`, the *Known function* branch of
 `translate_expression`, `oraclize`'s handling of the callee).  The statement below is about the
 call mechanism: for **every** well-formed callee definition list, **every** list of actual
 argument bit expressions of the callee's shape (any expressions: variables, tuple elements,
@@ -271,6 +271,89 @@ example : ¬ WFStrict rpCallee := fun h => by
 
 example : Shaped exCallee.args [⟨true, false, [.sym "c.1", .sym "c.1"]⟩, ⟨false, false, [.not (.sym "c.0")]⟩] := by
   simp [Shaped, exCallee]
+
+/-! ## which definition a call reaches: name histories of the callee environment
+
+`Env.defs` is a list; `bind_function` appends (guard: the name is not a type), `know_function` = exactly one
+definition of that name, `getdef` = the first.  In Python a call reaches the MOST RECENT binding of the name.
+The code never hands a caller a stale definition: it resolves a name only while it was bound once. -/
+
+/-- `bind_function`'s guard (`if self.know_type(deff[0]): return`): a definition called like a type the environment
+knows is dropped, the environment is unchanged (a call of that name is a typecast for `translate_expression`) -/
+theorem bind_type_named_dropped (q : Quirks) (types : List String) (defs : List LogicFun)
+    (ords : List (List String)) (f : LogicFun) (h : types.contains f.name = true) :
+    envBind q types defs ords f = defs := by
+  simp only [envBind, h, ↓reduceIte]
+
+/-- every other definition is APPENDED – also when the environment already holds a definition of that name: the
+guard does not look at the definitions -/
+theorem bind_appends (q : Quirks) (types : List String) (defs : List LogicFun)
+    (ords : List (List String)) (f : LogicFun) (h : types.contains f.name = false) :
+    envBind q types defs ords f = defs ++ [bindFunction q ords f] := by
+  simp only [envBind, h, ↓reduceIte, Bool.false_eq_true]
+
+/-- the environment after binding `f1` and then `f2` (any names, equal or not): both are there, in that order -/
+theorem bind_twice (q : Quirks) (types : List String) (defs : List LogicFun)
+    (o1 o2 : List (List String)) (f1 f2 : LogicFun)
+    (h1 : types.contains f1.name = false) (h2 : types.contains f2.name = false) :
+    envBind q types (envBind q types defs o1 f1) o2 f2
+      = defs ++ [bindFunction q o1 f1, bindFunction q o2 f2] := by
+  simp only [envBind, h1, h2, ↓reduceIte, Bool.false_eq_true, List.append_assoc, List.cons_append, List.nil_append]
+
+/-- a call always resolves to a definition the environment holds under that name, and then it is the ONLY one of
+that name (so also the most recent one) – `know_function` is "exactly one", `getdef` the first -/
+theorem resolve_sound (defs : List LogicFun) (n : String) (d : LogicFun) (h : resolve defs n = some d) :
+    d ∈ defs ∧ d.name = n ∧ ∀ d' ∈ defs, d'.name = n → d' = d := by
+  unfold resolve at h
+  split at h
+  · rename_i hk
+    unfold getDef at h
+    have hm := List.mem_of_find?_eq_some h
+    have hp := List.find?_some h
+    simp at hp
+    refine ⟨hm, hp, ?_⟩
+    intro d' hd' hn'
+    unfold knowFunction at hk
+    simp at hk
+    have hd : d ∈ defs.filter (fun d => d.name == n) := by simp [List.mem_filter, hm, hp]
+    have hd2 : d' ∈ defs.filter (fun d => d.name == n) := by simp [List.mem_filter, hd', hn']
+    generalize defs.filter (fun d => d.name == n) = l at hk hd hd2
+    match l, hk with
+    | [x], _ =>
+      simp at hd hd2
+      rw [hd, hd2]
+  · cases h
+
+/-- after the first binding of a name, a call of that name reaches that definition -/
+theorem resolve_first_binding (q : Quirks) (types : List String) (defs : List LogicFun)
+    (ords : List (List String)) (f : LogicFun) (ht : types.contains f.name = false)
+    (hfresh : ∀ d ∈ defs, d.name ≠ f.name) :
+    resolve (envBind q types defs ords f) f.name = some (bindFunction q ords f) := by
+  have hfil : defs.filter (fun d => d.name == f.name) = [] := by
+    simp [List.filter_eq_nil_iff]; exact hfresh
+  have hfind : defs.find? (fun d => d.name == f.name) = none := by
+    simp [List.find?_eq_none]; exact hfresh
+  rw [bind_appends q types defs ords f ht]
+  simp [resolve, knowFunction, getDef, List.filter_append, hfil, List.find?_append, hfind, bindFunction]
+
+/-- after a SECOND binding under the same name no call of that name is resolved at all (`UnknownSymbolException`):
+in particular a call never reaches the first, stale definition – whatever the two bodies are -/
+theorem resolve_rebound (q : Quirks) (types : List String) (defs : List LogicFun)
+    (o1 o2 : List (List String)) (f1 f2 : LogicFun) (ht : types.contains f1.name = false)
+    (hn : f2.name = f1.name) :
+    resolve (envBind q types (envBind q types defs o1 f1) o2 f2) f1.name = none := by
+  have ht2 : types.contains f2.name = false := by rw [hn]; exact ht
+  rw [bind_twice q types defs o1 o2 f1 f2 ht ht2]
+  simp [resolve, knowFunction, List.filter_append, bindFunction, hn]
+
+/-- binding another name does not change what a name resolves to -/
+theorem resolve_other_name (q : Quirks) (types : List String) (defs : List LogicFun)
+    (ords : List (List String)) (g : LogicFun) (n : String) (hne : g.name ≠ n) :
+    resolve (envBind q types defs ords g) n = resolve defs n := by
+  unfold envBind
+  split
+  · rfl
+  · simp [resolve, knowFunction, getDef, List.filter_append, List.find?_append, bindFunction, hne]
 
 /-! ## the listed defects: the model of the code as it is violates the property -/
 
